@@ -225,7 +225,12 @@ func init() {
 			return VSlice{O: ex.newObj(VArr{e}), Len: n, Cap: n}
 		}
 		m["nd:ndAtomLess"] = func(ex *Exec, fr *frame, cc *ssa.CallCommon, a []Value) Value {
-			return VBool{Lt(ex.atomTerm(a[0]), ex.atomTerm(a[1]))}
+			sa, oka := a[0].(VStr)
+			sb, okb := a[1].(VStr)
+			if oka && okb && sa.Atom != nil && sb.Atom != nil {
+				return VBool{Lt(*sa.Atom, *sb.Atom)}
+			}
+			return VBool{ex.lexLess(a[0], a[1])}
 		}
 		m["nd:ndB2I"] = func(ex *Exec, fr *frame, cc *ssa.CallCommon, a []Value) Value {
 			return VInt{Ite(a[0].(VBool).T, IntC(1), IntC(0))}
